@@ -420,9 +420,13 @@ Section Refine.
       destruct (run K V hash eqb need m ops) as [[? ?]|]; [discriminate|congruence].
   Qed.
 
-  Lemma inv_new : forall cap, (1 <= cap < W64)%N -> Inv (new_hashmap K V cap) [].
+  (** every uint64 initial capacity: NewHashMap turns 0 into 1 *)
+  Lemma inv_new : forall cap, (cap < W64)%N -> Inv (new_hashmap K V cap) [].
   Proof.
-    intros. constructor; simpl; auto.
+    intros cap H. unfold new_hashmap.
+    assert (Hc : (1 <= (if (cap =? 0)%N then 1 else cap) < W64)%N).
+    { destruct (N.eqb_spec cap 0); [split; [lia | reflexivity] | lia]. }
+    constructor; simpl; auto.
     - apply repeat_length.
     - intros. eapply repeat_nil_place; eauto.
     - rewrite concat_repeat_nil. constructor.
@@ -430,7 +434,7 @@ Section Refine.
 
   (** * the statements *)
   Theorem hashmap_refines_gen : forall cap ops rs mf,
-      (1 <= cap < W64)%N -> ops_ok ops ->
+      (cap < W64)%N -> ops_ok ops ->
       run K V hash eqb need (new_hashmap K V cap) ops = Some (rs, mf) ->
       rs = fst (run_assoc K V eqb [] ops) /\
       Permutation (key_values K V mf) (snd (run_assoc K V eqb [] ops)) /\
@@ -442,17 +446,11 @@ Section Refine.
   Qed.
 
   Theorem hashmap_total_gen : forall cap ops,
-      (1 <= cap < W64)%N -> ops_ok ops -> no_overflow ->
+      (cap < W64)%N -> ops_ok ops -> no_overflow ->
       run K V hash eqb need (new_hashmap K V cap) ops <> None.
   Proof. intros. eapply run_total; eauto. now apply inv_new. Qed.
 End Refine.
 
-(** capacity 0 is rejected by the code: make([]Bucket, 0), and indexFor(h, 0) = h & (2^64-1) = h
-    is outside the empty array for every key (run-time panic) *)
-Lemma hashmap_capacity_zero : forall K V (hash : K -> N) (eqb : K -> K -> bool) (need : nat -> N -> bool) k v,
-    value K V hash eqb (new_hashmap K V 0) k = None /\
-    put K V hash eqb need (new_hashmap K V 0) k v = None.
-Proof.
-  intros. unfold value, put, slot_of, nthN. simpl.
-  destruct (index_for (hash k) 0); split; reflexivity.
-Qed.
+(** capacity 0 behaves as capacity 1 (NewHashMap: if size == 0 { size = 1 }) *)
+Lemma hashmap_capacity_zero : forall K V, new_hashmap K V 0 = new_hashmap K V 1.
+Proof. reflexivity. Qed.
